@@ -41,3 +41,34 @@ pub fn c20(tier: &str) -> i32 {
         },
     )
 }
+
+pub fn c18(tier: &str) -> i32 {
+    use crate::engines::tuple;
+    use crate::findings::Findings;
+    let thorough = tier == "thorough";
+    let f = Findings::load();
+    let ids = f.ids_for("C18");
+    let groups = vec![FlatGroup {
+        name: "tuple-histories".into(),
+        size: tuple::n_cases(thorough),
+        chunk: 16,
+        what: "every (schema, initial row, update chain): x {no delete, delete} x every assignment of {committed-before, started-after, active, aborted, the reader itself} to creator, each updater and the deleter x every trimming horizon valid for that reader".into(),
+    }];
+    run_flat(
+        "C18",
+        tier,
+        "exploration",
+        "tuple",
+        tuple::params(thorough, ids.contains("KF-version-xmin-is-creator"), ids.contains("KT-bool-write")),
+        groups,
+        180,
+        &[
+            "the tuple code is driven through the verif facade (TupleBuilder::build, Tuple::add_version_with, Tuple::delete, Tuple::vaccum_with, TupleReader::parse_last_version / parse_for_snapshot, Snapshot::new)",
+            "schemas: 1-2 key columns (quick), 0-3 value columns over {Int, BigInt, Double, Bool, Text}; values per type include NULL, empty and 300-byte text, i64::MIN, -0.0",
+            "update chains: every subset of the value columns with every domain value, length <= 2 exhaustively (thorough: length 3 over a strided subset of 6 steps)",
+            "a trimming horizon h is valid for a reader if the reader's id is >= h and no participating transaction below h is still active",
+        ],
+        "exhaustive enumeration by case index; evaluation = one (history, state assignment) decode or one (history, assignment, horizon) trim+decode; non-trivial = the history has at least one update or a delete",
+        &|f: &str| f.split_once(" ## ").and_then(|(head, _)| head.split_whitespace().last().map(|s| s.to_string())).filter(|id| id.starts_with("KF-") || id.starts_with("KT-")),
+    )
+}
